@@ -20,7 +20,7 @@ func init() {
 var profC05 = Profile{
 	MaxBars: 7, MaxSteps: 40, Refresh: []string{"manual", "manual", "manual", "autoinj"}, QLens: []int{-1, -1, -3, -4, 128, 0, 1, -2},
 	Pop: 30, Queue: 25, Prio: true, PrioOnFinished: true, Ext: 20, Text: 1, Rm: 25, NoPop: 20, AbortW: 2, TicksW: 8, Notifier: 100,
-	Fillers: []string{"bar", "tag", "nop", "spinner"}, LateAdd: true, Cancel: 15, Pty: 20, PtyRowsMax: 8, Faults: 12,
+	Fillers: []string{"bar", "tag", "nop", "spinner", "spinnerv"}, LateAdd: true, Cancel: 15, Pty: 20, PtyRowsMax: 8, Faults: 12,
 }
 
 // profC05Conc: concurrent adders and updaters while render cycles run; judged by
@@ -226,6 +226,9 @@ func runC05(ci interface{}) Result {
 			return r
 		}
 		for k, f := range frames {
+			if sim.Frames[k].WriteFailed {
+				continue // the bytes of the frame the writer rejected are lost or cut
+			}
 			got := map[int]bool{}
 			for _, b := range f.BarOrder() {
 				got[b] = true
